@@ -229,6 +229,18 @@ func (w *World) IntrospectHTTP(token, hint, scope, authorization string) (fosite
 	return w.Provider.NewIntrospectionRequest(w.Ctx, r, NewSession(""))
 }
 
+// IntrospectHTTPForm authenticates with an access token in the form parameter "access_token" (RFC 6750 2.2).
+func (w *World) IntrospectHTTPForm(token, hint, scope, bearer string) (fosite.IntrospectionResponder, error) {
+	form := url.Values{"token": {token}, "access_token": {bearer}}
+	if hint != "" {
+		form.Set("token_type_hint", hint)
+	}
+	if scope != "" {
+		form.Set("scope", scope)
+	}
+	return w.Provider.NewIntrospectionRequest(w.Ctx, post(form), NewSession(""))
+}
+
 // IntrospectFull is Introspect with the token use reported by the provider.
 func (w *World) IntrospectFull(token string, use fosite.TokenUse, scopes ...string) (bool, fosite.TokenUse, fosite.AccessRequester) {
 	tu, ar, err := w.Provider.IntrospectToken(w.Ctx, token, use, NewSession(""), scopes...)
